@@ -70,7 +70,7 @@ DoMatches(dom, comps, p) ==       \* p = <<>> is the Document node
        CASE c.k = "Class"   -> isEl /\ HasClass(NodeAt(dom, p), c.v) /\ DoMatches(dom, rest, p)
          [] c.k = "Hash"    -> isEl /\ HasAttr(NodeAt(dom, p), "id") /\ NodeAt(dom, p).a.id = c.v /\ DoMatches(dom, rest, p)
          [] c.k = "Element" -> isEl /\ NodeAt(dom, p).n = c.v /\ DoMatches(dom, rest, p)
-         [] c.k = "Star"    -> DoMatches(dom, rest, p)
+         [] c.k = "Star"    -> isEl /\ DoMatches(dom, rest, p)
          [] c.k = "CombChild" -> p # <<>> /\ DoMatches(dom, rest, ParentPath(p))
          [] c.k = "CombDesc"  -> p # <<>> /\ (DoMatches(dom, rest, ParentPath(p)) \/ DoMatches(dom, comps, ParentPath(p)))
          [] c.k = "Nth" -> /\ isEl
